@@ -132,6 +132,18 @@ func (cs *State) catchupReplay(csHeight int64) error {
 		return err
 	}
 	if !found {
+		if endHeight > 0 && cs.blockStore.Height() >= endHeight {
+			// We crashed after saving block endHeight but before writing its
+			// #ENDHEIGHT (see finalizeCommit); the handshake has applied the block
+			// since. Write the marker now: without it nothing we log for csHeight
+			// could ever be replayed, and after another crash the node would come
+			// back with its votes for csHeight signed but forgotten.
+			cs.Logger.Info("WAL does not contain #ENDHEIGHT for the last stored block; writing it", "height", endHeight)
+			if err := cs.wal.WriteSync(EndHeightMessage{endHeight}); err != nil {
+				return err
+			}
+			return nil
+		}
 		return fmt.Errorf("cannot replay height %d. WAL does not contain #ENDHEIGHT for %d", csHeight, endHeight)
 	}
 	defer gr.Close()
